@@ -87,7 +87,24 @@ CLAIM = {
             'parent profile, scaled / concatenated responses, deep copies and pickles, continuing on a deep copy) - '
             'op `fork` (identity in the model), oracle derived-objects; deep copies of multiuser channels with Jakes '
             'links fail in fading_generators.py (known finding); R14 (257-tap profile, 257-link multiuser channel, '
-            'fft_size 300 every quick run; 258 / 300 / 65537 taps in thorough) - all theorems are size-free.',
+            'fft_size 300 every quick run; 258 / 300 / 65537 taps in thorough) - all theorems are size-free. '
+            'Third list (harness/props/c03_r1516.py): R15 (values that are close but different: path losses 1e-9 .. 5e-324 one after '
+            'the other, path losses / sampling intervals differing by a relative 1e-6 .. 1e-9, adjacent binary64 values, values a '
+            'hair outside [0, 1], tap powers down to -150 dB next to 0 dB, delays closer than 1e-8 s in different samples) - theorems '
+            'pathloss_setter_takes_effect_for_every_new_value, pathloss_is_the_exact_value, pathloss_close_values_distinguished, '
+            'mu_pathloss_entry_exact, discretize_keeps_every_tap, constructor_sampling_intervals_agree_exactly (model ctorTs of the '
+            'comparisons in TdlChannel.__init__, tied by an exact correspondence on binary64 intervals); exact correspondence of '
+            'histories with close path losses / tiny tap amplitudes and of dyadic close-value profiles; oracles against a twin object '
+            'without path loss resp. with equal tap powers, every comparison relative to the value itself. Refusal of DIFFERENT '
+            'sampling intervals is demanded only for relative differences >= 1e-7 (adjacent doubles are not generated as a pair). '
+            'R16 (argument identity and buffer reuse: ONE signal array / list of arrays, ONE carrier index array / list, ONE path-loss '
+            'matrix, ONE pair of tap arrays refilled in place between the calls of a history; arguments overwritten right after the '
+            'call; one array as signal and carrier_indexes, as the signal of every transmitter, as tap_powers_dB and tap_delays; one '
+            'response twice in concatenate_samples) - theorems earlier_results_independent_of_later_calls, '
+            'refilled_buffer_history_eq_fresh_values (the model takes values; the caller-side buffer is spelled out in Su.runBuf); the '
+            'real objects are driven with really refilled / overwritten / shared ndarrays in correspondence and oracle, plus a twin '
+            'object that gets a fresh array for every argument. concatenate_samples insists on the SAME profile object (documented), '
+            'so equal-content profiles are not interchangeable there - outside the property.',
 }
 
 SEEDMOD = 1 << 20
@@ -2534,7 +2551,9 @@ def check(ctx):
                 'goes on) with inputs in many element types, memory layouts, shapes and scales (2^-40..2^40), each '
                 'transmission followed by a read of the reported response; all values compared exactly as rationals '
                 'with the Lean model. non-trivial = distinct scenario line with >= 2 taps or MIMO; oracle cases run '
-                'the same histories on the untouched generators / FFT / dB profiles against first-principles formulas')
+                'the same histories on the untouched generators / FFT / dB profiles against first-principles formulas; '
+                'R15 / R16 scenarios: close-but-different path losses / sampling intervals / tap powers, caller-side argument '
+                'buffers refilled in place, overwritten after the call, one array in two roles')
     core.prove(ctx, MODULE, generated=['Slice'], drivers=[DRIVER], scratch=ctx.scratch)
     ctx.required_branches = list(REQUIRED)
     np.random.seed(ctx.rng.below(1 << 31))
